@@ -252,19 +252,20 @@ pub fn tape_stream<F>(env: &Env, total: &mut Stats, name: &str, cases: u32, max_
 where
     F: Fn(&[u8], &mut Stats) -> Vec<Violation> + Sync,
 {
-    let strat = proptest::collection::vec(proptest::num::u8::ANY, 0..=max_len);
-    value_stream(env, total, name, cases, strat, |v: &Vec<u8>, st| oracle(v, st));
+    value_stream(env, total, name, cases, || proptest::collection::vec(proptest::num::u8::ANY, 0..=max_len), |v: &Vec<u8>, st| oracle(v, st));
 }
 
 /// Generic sharded proptest stream.
-pub fn value_stream<S, F>(env: &Env, total: &mut Stats, name: &str, cases: u32, strat: S, oracle: F)
+pub fn value_stream<S, M, F>(env: &Env, total: &mut Stats, name: &str, cases: u32, mk: M, oracle: F)
 where
-    S: Strategy + Sync,
+    S: Strategy,
+    M: Fn() -> S + Sync,
     S::Value: Clone + std::fmt::Debug,
     F: Fn(&S::Value, &mut Stats) -> Vec<Violation> + Sync,
 {
     let per = (cases as usize + SHARDS - 1) / SHARDS;
     par_shards(total, |shard, st| {
+        let strat = mk();
         let cfg = Config {
             cases: per as u32,
             rng_seed: RngSeed::Fixed(env.sub_seed(name, shard)),
